@@ -27,6 +27,10 @@ theorem op_atomic_identity (V : Identity.Key → Identity.Sig → Identity.Blob 
     (∀ s', Identity.op V s e = .ok s' → Identity.step V s e = s') := by
   constructor <;> intro x h <;> simp [Identity.step, h]
 
+theorem op_atomic_thread (s : Cob.Thread) (e : Cob.TOp) :
+    (∀ err, s.op e = .error err → s.step e = s) ∧ (∀ s', s.op e = .ok s' → s.step e = s') := by
+  constructor <;> intro x h <;> simp [Cob.Thread.step, h]
+
 /-- `apply` (the `S → Entry → Option S` form consumed by the generic change-graph evaluator) agrees with
 `step`: `none` ⇒ the state is kept. -/
 theorem step_eq_apply_issue (s : Issue.Issue) (e : Issue.Op) :
